@@ -8,7 +8,7 @@ namespace AsyncFix.Model.Codec
 
 /-! ### shape of a valid frame -/
 
-theorem okBegin_iff {bs : Bytes} (hb : okBegin bs = true) :
+theorem rdr_okBegin_iff {bs : Bytes} (hb : okBegin bs = true) :
     marker <+: fieldBytes [56] bs ∧ SOH ∉ bs := by
   simp only [okBegin, Bool.and_eq_true, isPrefix_iff, Bool.not_eq_true', List.contains_eq_mem,
     decide_eq_false_iff_not] at hb
@@ -16,14 +16,14 @@ theorem okBegin_iff {bs : Bytes} (hb : okBegin bs = true) :
 
 theorem mkFrame_marker {bs : Bytes} (hb : okBegin bs = true) (fs : List Fld) :
     marker <+: mkFrame bs fs := by
-  have h := (okBegin_iff hb).1
+  have h := (rdr_okBegin_iff hb).1
   unfold mkFrame headBytes
   simp only [List.append_assoc]
   exact h.trans (List.prefix_append _ _)
 
 theorem mkFrame_length_ge {bs : Bytes} (hb : okBegin bs = true) (fs : List Fld) :
     6 < (mkFrame bs fs).length := by
-  have h := ((okBegin_iff hb).1).length_le
+  have h := ((rdr_okBegin_iff hb).1).length_le
   rw [marker_length] at h
   unfold mkFrame headBytes
   simp only [List.length_append, List.length_cons, List.length_nil]
@@ -34,12 +34,12 @@ of the frame (followed by anything) is the last byte of `pre` -/
 theorem mkFrame_shape {bs : Bytes} (hb : okBegin bs = true) (fs : List Fld) (hok : okFields fs = true) :
     ∃ pre ck : Bytes, mkFrame bs fs = pre ++ (ck ++ [SOH]) ∧ 0 < pre.length ∧ SOH ∉ ck ∧
       ∀ rest, findSub cksumPat (pre ++ (ck ++ SOH :: rest)) = some (pre.length - 1) := by
-  obtain ⟨_, hsoh⟩ := okBegin_iff hb
+  obtain ⟨_, hsoh⟩ := rdr_okBegin_iff hb
   refine ⟨headBytes bs (bodyBytes fs).length ++ bodyBytes fs,
     fieldBytes [49, 48] (dec3 (sum (headBytes bs (bodyBytes fs).length ++ bodyBytes fs) % 256)), ?_, ?_, ?_, ?_⟩
   · simp only [mkFrame, List.append_assoc]
   · simp only [headBytes, List.length_append, List.length_cons]; omega
-  · exact soh_not_mem_field (by decide) (not_mem_of_digits (by decide) (dec3_digits _))
+  · exact soh_not_mem_field (by decide) (not_mem_of_digits (by decide) (rdr_dec3_digits _))
   · intro rest
     generalize hck : fieldBytes [49, 48] (dec3 (sum (headBytes bs (bodyBytes fs).length ++ bodyBytes fs) % 256)) = ck
     have hckp : [49, 48, 61] <+: ck ++ SOH :: rest := by subst hck; simp [fieldBytes, EQS]
@@ -51,7 +51,7 @@ theorem mkFrame_shape {bs : Bytes} (hb : okBegin bs = true) (fs : List Fld) (hok
       simp only [fieldBytes, List.mem_append, List.mem_cons, not_or]
       exact ⟨by decide, by decide, hsoh⟩
     have h9 : SOH ∉ fieldBytes [57] (natToDec n) :=
-      soh_not_mem_field (by decide) (not_mem_of_digits (by decide) (natToDec_digits _))
+      soh_not_mem_field (by decide) (not_mem_of_digits (by decide) (rdr_natToDec_digits _))
     rw [hshape2, show cksumPat = SOH :: [49, 48, 61] from rfl, findSub_skip h8,
       show SOH :: [49, 48, 61] = cksumPat from rfl, findSub_ck_at_soh]
     have hn9 : ¬ [49, 48, 61] <+: fieldBytes [57] (natToDec n) ++ SOH :: (bodyBytes fs ++ (ck ++ SOH :: rest)) := by
